@@ -2,7 +2,10 @@ package gen
 
 import (
 	"encoding/hex"
+	"encoding/json"
 	"math/big"
+	"os"
+	"sync"
 
 	"pgregory.net/rapid"
 )
@@ -19,8 +22,13 @@ var LimbPatterns = []uint64{0, 1, 2, 1<<32 - 1, 1 << 32, 1<<32 + 1, 1 << 63, 1<<
 // Limb draws one 64-bit limb, biased towards boundary patterns.
 func Limb() *rapid.Generator[uint64] {
 	return rapid.Custom(func(t *rapid.T) uint64 {
-		switch rapid.IntRange(0, 7).Draw(t, "limbKind") {
+		switch Pick(t, "limbKind", 9) {
 		case 0, 1:
+			return U64(t, "limb")
+		case 8:
+			if w, ok := dictLimb(t); ok {
+				return w
+			}
 			return U64(t, "limb")
 		case 3:
 			// quotient-aimed limb: a low Montgomery limb a0 for which the first quotient digit of a word-by-word
@@ -38,6 +46,314 @@ func Limb() *rapid.Generator[uint64] {
 		}
 		return rapid.SampledFrom(LimbPatterns).Draw(t, "limbPat")
 	})
+}
+
+// --- auto-dictionary ---------------------------------------------------------------------------------------------------
+// The driver extracts every integer literal from the non-test sources of the tree under test ($VERIF_DICT, JSON): 64-bit
+// words, and 256-bit values formed by four consecutive words of a composite literal (both limb orders). Like the
+// dictionaries of coverage-guided fuzzers, they let the generators aim at constants the code compares and multiplies with -
+// including constants of algorithms that were not there when the generators were written.
+
+type dictionary struct {
+	Words []uint64
+	Bigs  []*big.Int
+}
+
+var (
+	dictOnce sync.Once
+	dict     dictionary
+)
+
+// Dict returns the auto-dictionary (empty when the driver did not provide one).
+func Dict() *dictionary {
+	dictOnce.Do(func() {
+		raw, err := os.ReadFile(os.Getenv("VERIF_DICT"))
+		if err != nil {
+			return
+		}
+		var in struct {
+			Words []string `json:"words"`
+			Bigs  []string `json:"bigs"`
+		}
+		if json.Unmarshal(raw, &in) != nil {
+			return
+		}
+		for _, w := range in.Words {
+			if v, ok := new(big.Int).SetString(w, 16); ok && v.BitLen() <= 64 {
+				dict.Words = append(dict.Words, v.Uint64())
+			}
+		}
+		for _, b := range in.Bigs {
+			if v, ok := new(big.Int).SetString(b, 16); ok && v.Sign() > 0 {
+				dict.Bigs = append(dict.Bigs, v)
+			}
+		}
+	})
+	return &dict
+}
+
+// dictLimb draws a limb related to a dictionary word w: w itself and its neighbours, its complement, or - when w is a small
+// multiplier - a limb x for which x*w lands just below or just above a multiple of 2^64 (where a carry out of the low half of
+// the product appears or disappears).
+func dictLimb(t *rapid.T) (uint64, bool) {
+	d := Dict()
+	if len(d.Words) == 0 {
+		return 0, false
+	}
+	w := d.Words[Pick(t, "dictWord", len(d.Words))]
+	switch Pick(t, "dictLimbKind", 6) {
+	case 0:
+		return w, true
+	case 1:
+		return w + 1, true
+	case 2:
+		return w - 1, true
+	case 3:
+		return ^w, true
+	default:
+		if w < 3 {
+			return w, true
+		}
+		// floor(j * 2^64 / w) + {-1, 0, 1}
+		j := new(big.Int).SetUint64(1 + U64(t, "dictJ")%(w-1))
+		q := j.Lsh(j, 64)
+		q.Div(q, new(big.Int).SetUint64(w))
+		return q.Uint64() + uint64(Pick(t, "dictPm", 3)) - 1, true
+	}
+}
+
+var pow2s = func() []*big.Int {
+	var out []*big.Int
+	for _, k := range []uint{128, 192, 256, 320, 384, 448, 512} {
+		out = append(out, new(big.Int).Lsh(one, k))
+	}
+	return out
+}()
+
+// dictInt draws a value in [0, m) aimed at the big constants of the dictionary: the constant itself (and its image mod m) with
+// perturbed words, limbs taken from dictionary words, or a value v SOLVED so that floor(v*A/B) - the quotient estimate of a
+// Barrett reduction, the rounded product of a scalar decomposition, a lazy-reduction bound ... - sits on a 64-bit word
+// boundary (low words all ones or zero, with the discarded fraction above or below one half), for constants A and B taken
+// from the dictionary, the modulus, its defect 2^256 - m and powers of two.
+func dictInt(t *rapid.T, m *big.Int) *big.Int {
+	d := Dict()
+	if len(d.Bigs) == 0 && len(d.Words) == 0 {
+		return nil
+	}
+	switch Pick(t, "dictIntKind", 5) {
+	case 0: // limbs from dictionary words
+		var l [4]uint64
+		same, _ := dictLimb(t)
+		for i := range l {
+			switch Pick(t, "dl", 4) {
+			case 0:
+				l[i] = same
+			case 1:
+				l[i], _ = dictLimb(t)
+			case 2:
+				l[i] = same + uint64(Pick(t, "dlpm", 3)) - 1
+			default:
+				l[i] = Limb().Draw(t, "l")
+			}
+		}
+		return FromLimbs(l)
+	case 1: // a big constant, word-wise perturbed
+		if len(d.Bigs) == 0 {
+			return nil
+		}
+		c := new(big.Int).Mod(d.Bigs[Pick(t, "dictBig", len(d.Bigs))], two256)
+		return PerturbWords(t, c, 64)
+	case 2: // solved product: (v * A mod 2^256) has a chosen 64-bit word all ones or zero (folding / lazy-reduction carries)
+		cands := append([]*big.Int{new(big.Int).Sub(two256, m), m}, d.Bigs...)
+		for _, w := range d.Words {
+			if w > 2 {
+				cands = append(cands, new(big.Int).SetUint64(w))
+			}
+		}
+		a := new(big.Int).Mod(cands[Pick(t, "prodA", len(cands))], two256)
+		for a.Sign() != 0 && a.Bit(0) == 0 {
+			a.Rsh(a, 1) // the odd part (a power of two only shifts the words)
+		}
+		inv := new(big.Int).ModInverse(a, two256)
+		if inv == nil {
+			return nil
+		}
+		l := ToLimbs(Uniform256().Draw(t, "prodT"))
+		wi := Pick(t, "prodWord", 4)
+		l[wi] = []uint64{^uint64(0), 0, ^uint64(0) - 1, 1}[Pick(t, "prodPat", 4)]
+		if Pick(t, "prodTwo", 3) == 0 {
+			l[(wi+3)%4] = l[wi]
+		}
+		v := FromLimbs(l)
+		v.Mul(v, inv).Mod(v, two256)
+		return v
+	default: // solved quotient
+		cands := append(append([]*big.Int{m, new(big.Int).Sub(two256, m)}, d.Bigs...), pow2s...)
+		a := cands[Pick(t, "ratioA", len(cands))]
+		b := cands[Pick(t, "ratioB", len(cands))]
+		if Pick(t, "ratioBpow2", 4) != 0 { // the divisor of such estimates is mostly a power of two
+			b = pow2s[Pick(t, "ratioBp", len(pow2s))]
+		}
+		if a.Sign() == 0 || b.Sign() == 0 || a.Cmp(b) == 0 {
+			return nil
+		}
+		w := uint(64 * (1 + Pick(t, "ratioW", 3)))
+		maxq := new(big.Int).Div(new(big.Int).Mul(m, a), b)
+		maxq.Rsh(maxq, w)
+		if maxq.Sign() == 0 {
+			return nil
+		}
+		j := new(big.Int).Mod(Uniform256().Draw(t, "ratioJ"), maxq)
+		j.Add(j, one)
+		q := j.Lsh(j, w)
+		q.Sub(q, big.NewInt(int64(Pick(t, "ratioE", 3)))) // low words zero, all ones, all ones - 1
+		num := q.Mul(q, b)
+		switch Pick(t, "ratioFrac", 4) { // the fraction that the division discards
+		case 0:
+		case 1:
+			num.Add(num, new(big.Int).Rsh(b, 1))
+		case 2:
+			num.Add(num, new(big.Int).Mod(Uniform256().Draw(t, "fr"), b))
+		default:
+			half := new(big.Int).Rsh(b, 1)
+			num.Add(num, half).Add(num, new(big.Int).Mod(Uniform256().Draw(t, "fr"), half.Add(half, one)))
+		}
+		v := num.Add(num, new(big.Int).Sub(a, one))
+		v.Div(v, a) // ceil(num / a)
+		v.Add(v, big.NewInt(int64(Pick(t, "ratioD", 3))-1))
+		return v
+	}
+}
+
+// DictFixed enumerates, deterministically, values in [0, m) aimed at the dictionary (see dictInt): for every word w the
+// limb vectors (w,w,w,w), three limbs w and the fourth w-1, w+1, 0 or all ones (at the top and at the bottom); for every big
+// constant A the values v for which floor(v*A/B) has its low one or two words all ones or zero with the discarded fraction
+// just above one half or zero (B a power of two from 2^256 to 2^512, or m), and the values for which v*A mod 2^256 has its top
+// or bottom word all ones. The checks evaluate them as fixed cases on every run. stride > 1 keeps every stride-th value.
+func DictFixed(m *big.Int, stride int) []*big.Int {
+	d := Dict()
+	var out []*big.Int
+	seen := map[string]bool{}
+	add := func(v *big.Int) {
+		if v == nil || v.Sign() < 0 {
+			return
+		}
+		v = new(big.Int).Mod(v, m)
+		if k := v.Text(16); !seen[k] {
+			seen[k] = true
+			out = append(out, v)
+		}
+	}
+	words := d.Words
+	if len(words) > 160 {
+		words = words[:160]
+	}
+	ones := ^uint64(0)
+	for _, w := range words {
+		if w < 1<<16 {
+			continue
+		}
+		add(FromLimbs([4]uint64{w, w, w, w}))
+		for _, x := range []uint64{w - 1, w + 1, 0, ones} {
+			add(FromLimbs([4]uint64{x, w, w, w}))
+			add(FromLimbs([4]uint64{w, w, w, x}))
+		}
+		add(FromLimbs([4]uint64{w, 0, 0, 0}))
+		add(FromLimbs([4]uint64{0, 0, 0, w}))
+	}
+	// small multipliers: a limb x for which x*w is just below / above a multiple of 2^64, in every position, next to limbs whose
+	// products with w have a large high half
+	for _, w := range words {
+		if w < 3 || w >= 1<<40 {
+			continue
+		}
+		for _, j := range []uint64{1, w / 3, w / 2, w - 1} {
+			if j == 0 {
+				continue
+			}
+			q := new(big.Int).Lsh(new(big.Int).SetUint64(j), 64)
+			x := q.Div(q, new(big.Int).SetUint64(w)).Uint64()
+			for _, dx := range []uint64{0, ones} { // x, x-1
+				for pos := 0; pos < 4; pos++ {
+					l := [4]uint64{ones - 1, ones - 1, ones - 1, ones >> 1}
+					l[pos] = x + dx
+					add(FromLimbs(l))
+					l = [4]uint64{mix64(w + j), mix64(w + j + 1), mix64(w + j + 2), mix64(w+j+3) >> 1}
+					l[pos] = x + dx
+					add(FromLimbs(l))
+				}
+			}
+		}
+	}
+	bigs := append([]*big.Int{new(big.Int).Sub(two256, m)}, d.Bigs...)
+	if len(bigs) > 96 {
+		bigs = bigs[:96]
+	}
+	divisors := append(append([]*big.Int{}, pow2s[2:]...), m)
+	for ai, a := range bigs {
+		for bi, b := range divisors {
+			if a.Cmp(b) == 0 {
+				continue
+			}
+			maxq := new(big.Int).Div(new(big.Int).Mul(m, a), b)
+			for _, w := range []uint{64, 128} {
+				lim := new(big.Int).Rsh(maxq, w)
+				if lim.Sign() == 0 {
+					continue
+				}
+				for e := int64(0); e <= 1; e++ {
+					for frac := 0; frac < 2; frac++ {
+						// a deterministic multiplier j in [1, lim]
+						j := new(big.Int).SetUint64(mix64(uint64(ai*1000003+bi*10007) + uint64(w) + uint64(e)*7 + uint64(frac)*13))
+						j.Mul(j, new(big.Int).SetUint64(mix64(uint64(ai)+99))).Mul(j, j).Mod(j, lim).Add(j, one)
+						q := j.Lsh(j, w)
+						q.Sub(q, big.NewInt(e))
+						num := q.Mul(q, b)
+						if frac == 1 {
+							num.Add(num, new(big.Int).Rsh(b, 1)).Add(num, new(big.Int).Rsh(b, 3))
+						}
+						v := num.Add(num, new(big.Int).Sub(a, one))
+						v.Div(v, a)
+						if v.Cmp(m) < 0 {
+							add(v)
+						}
+					}
+				}
+			}
+		}
+		odd := new(big.Int).Mod(a, two256)
+		for odd.Sign() != 0 && odd.Bit(0) == 0 {
+			odd.Rsh(odd, 1)
+		}
+		if inv := new(big.Int).ModInverse(odd, two256); inv != nil {
+			for wi := 0; wi < 4; wi += 3 {
+				l := ToLimbs(new(big.Int).SetUint64(mix64(uint64(ai) + 5)))
+				l[1], l[2] = mix64(uint64(ai)+6), mix64(uint64(ai)+7)
+				l[wi] = ones
+				t := FromLimbs(l)
+				add(t.Mul(t, inv).Mod(t, two256))
+			}
+		}
+	}
+	if stride > 1 {
+		var thin []*big.Int
+		for i, v := range out {
+			if i%stride == 0 {
+				thin = append(thin, v)
+			}
+		}
+		out = thin
+	}
+	return out
+}
+
+// DictStride is the thinning the checks apply to DictFixed: every value in the main shards, every 16th in the extra (slower)
+// shards that run all fixed cases.
+func DictStride() int {
+	if os.Getenv("VERIF_SHARDS") == "1" && os.Getenv("VERIF_SHARD") != "0" {
+		return 16
+	}
+	return 1
 }
 
 // FoldConstants are the low 64-bit words of 2^256 - p and 2^256 - n.
@@ -122,9 +438,13 @@ func Uniform256() *rapid.Generator[*big.Int] {
 // DESIGN.md section 3.3; simplest classes first so that shrinking moves towards small values.
 func Int(m *big.Int) *rapid.Generator[*big.Int] {
 	return rapid.Custom(func(t *rapid.T) *big.Int {
-		kind := Pick(t, "intKind", 18)
+		kind := Pick(t, "intKind", 21)
 		var v *big.Int
 		switch kind {
+		case 18, 19, 20: // aimed at constants found in the sources of the tree under test
+			if v = dictInt(t, m); v == nil {
+				v = Uniform256().Draw(t, "r")
+			}
 		case 0: // tiny
 			v = big.NewInt(int64(rapid.IntRange(0, 3).Draw(t, "tiny")))
 		case 1: // top of the range
@@ -542,7 +862,31 @@ func Wide48(t *rapid.T, m *big.Int) []byte {
 	two384 := new(big.Int).Lsh(one, 384)
 	two192 := new(big.Int).Lsh(one, 192)
 	var v *big.Int
-	switch Pick(t, "k48", 10) {
+	switch Pick(t, "k48", 12) {
+	case 10, 11: // q*m + r with a large quotient and a remainder from the boundary-biased generator (incl. the dictionary-aimed
+		// classes) or at the modulus defect c = 2^256 - m, 2c, m - c and their neighbours: where a quotient estimate that is one
+		// short leaves a remainder of more than 256 bits
+		q := new(big.Int).SetBytes(RandBytes(t, "q", 16))
+		if Pick(t, "qTop", 2) == 0 {
+			q.SetBit(q, 127, 1)
+		}
+		var r *big.Int
+		c := new(big.Int).Sub(new(big.Int).Lsh(one, 256), m)
+		switch Pick(t, "remKind", 4) {
+		case 0:
+			r = Int(m).Draw(t, "rem")
+		case 1:
+			r = new(big.Int).Add(c, new(big.Int).SetUint64(U64(t, "remd")>>uint(rapid.IntRange(0, 63).Draw(t, "remsh"))))
+		case 2:
+			r = new(big.Int).Sub(c, big.NewInt(int64(rapid.IntRange(0, 3).Draw(t, "remm"))))
+		default:
+			r = new(big.Int).Sub(m, new(big.Int).Add(c, big.NewInt(int64(rapid.IntRange(-2, 2).Draw(t, "remn")))))
+		}
+		r.Mod(r, m)
+		v = q.Mul(q, m).Add(q, r)
+		if v.BitLen() > 384 {
+			v.Mod(v, two384)
+		}
 	case 9: // high part = floor(2^k / c) +- d for the modulus defect c = 2^256 - m (where folding hi*c back wraps), low part high
 		c := new(big.Int).Sub(new(big.Int).Lsh(one, 256), m)
 		k := uint(rapid.SampledFrom([]int{256, 255, 257, 320, 384}).Draw(t, "qk"))
